@@ -8,10 +8,13 @@
 (* was dropped twice; after "dropall" everything is released.                 *)
 EXTENDS Ownership, Json, IOUtils
 
-VARIABLES l, nbad
+VARIABLES l, nbad, rel      \* rel: the released set the implementation showed after the previous event
 Rec == ndJsonDeserialize(IOEnv.TRACE)
-tvars == <<out, inn, h, inC, res, l, nbad>>
-TInit == OInit /\ l = 1 /\ nbad = 0
+tvars == <<out, inn, h, inC, res, l, nbad, rel>>
+TInit == OInit /\ l = 1 /\ nbad = 0 /\ rel = {}
+\* the 'live nodes' precondition judged on what is REALLY alive (a Path may keep intermediate nodes
+\* alive that the model's minimal reading of it does not mention)
+CleanObs == \A n \in Nodes \ rel : \A k \in 1..Len(out[n] \o inn[n]) : (out[n] \o inn[n])[k][1] \notin rel
 
 When(c, s) == IF c THEN <<s>> ELSE <<>>
 SeqSetOf(s) == {s[k] : k \in 1..Len(s)}
@@ -24,14 +27,14 @@ TNext ==
   /\ l' = l + 1
   /\ LET ev == Rec[l] IN
      IF ev.ev = "reset"
-     THEN /\ out' = Empty /\ inn' = Empty /\ h' = [n \in Nodes |-> 1] /\ inC' = {} /\ res' = <<>> /\ nbad' = nbad
+     THEN /\ out' = Empty /\ inn' = Empty /\ h' = [n \in Nodes |-> 1] /\ inC' = {} /\ res' = <<>> /\ nbad' = nbad /\ rel' = {}
      ELSE IF ev.ev = "dropall"
      THEN LET v == When(SeqSetOf(ev.released) # Nodes, "leak-after-everything-was-dropped") \o When(ev.double # <<>>, "double-release") IN
           /\ IF v = <<>> THEN TRUE ELSE PrintT(<<"REJECT", l, v>>)
           /\ nbad' = IF v = <<>> THEN nbad ELSE nbad + 1
-          /\ UNCHANGED <<out, inn, h, inC, res>>
+          /\ UNCHANGED <<out, inn, h, inC, res, rel>>
      ELSE LET a == ev.a
-              en == Enabled(a)
+              en == EnabledWith(a, CleanObs)
               s == IF en THEN After(a) ELSE [out |-> out, inn |-> inn, h |-> h, inC |-> inC, res |-> res]
               obs == SeqSetOf(ev.released)
               v == IF ev.rt = "fail" THEN <<"panic-in-ownership-action">>
@@ -42,6 +45,7 @@ TNext ==
           /\ IF v = <<>> THEN TRUE ELSE PrintT(<<"REJECT", l, v>>)
           /\ nbad' = IF v = <<>> THEN nbad ELSE nbad + 1
           /\ out' = s.out /\ inn' = s.inn /\ h' = s.h /\ inC' = s.inC /\ res' = s.res
+          /\ rel' = IF ev.rt = "fail" THEN rel ELSE obs
 
 TSpec == TInit /\ [][TNext]_tvars
 Consumed == (l = Len(Rec) + 1) => PrintT(<<"CONSUMED", Len(Rec), "rejected", nbad>>)
